@@ -191,7 +191,11 @@ func applyMutations(raw []byte, muts []Mutation, fix bool) (out []byte, stale bo
 				n.Arg = m.A
 				n.HeadN = 0
 			}
-		case "inner-widen", "inner-setuint", "inner-swap", "inner-dup", "inner-del", "inner-arrlen+", "inner-arrlen-", "inner-setarg":
+		case "retype":
+			// the item is replaced by an item of another CBOR type (type confusion)
+			repl := retypeItems[int(m.A%uint64(len(retypeItems)))]
+			*n = *CloneItem(repl)
+		case "inner-widen", "inner-setuint", "inner-swap", "inner-dup", "inner-del", "inner-arrlen+", "inner-arrlen-", "inner-setarg", "inner-retype":
 			// mutate the CBOR item inside a byte string (block-type specific data)
 			var bstrs []*Item
 			for _, x := range nodes {
@@ -280,6 +284,47 @@ func CountNodes(raw []byte) (outer int, inner []int) {
 
 // LengthBoundaries are the values every length/count field is set to (C04).
 var LengthBoundaries = []uint64{0, 1, 23, 24, 1 << 16, 1<<31 - 1, 1 << 31, 1<<32 - 1, 1 << 62, 1 << 63, 1<<64 - 1}
+
+// retypeItems are the replacements of the "retype" mutation.
+var retypeItems = []*Item{
+	{Major: MajUint, Arg: 0},
+	{Major: MajUint, Arg: 1 << 40},
+	{Major: MajNeg, Arg: 0},
+	{Major: MajBytes, Arg: 0},
+	{Major: MajBytes, Arg: 3, Bytes: []byte{1, 2, 3}},
+	{Major: MajText, Arg: 0},
+	{Major: MajText, Arg: 5, Bytes: []byte("dtn:x")},
+	{Major: MajArray, Arg: 0},
+	{Major: MajArray, Arg: 2, Items: []*Item{{Major: MajUint, Arg: 1}, {Major: MajUint, Arg: 0}}},
+	{Major: MajMap, Arg: 0},
+	{Major: MajOther, Info: 20}, // false
+	{Major: MajOther, Info: 22}, // null
+}
+
+// TypeMutants enumerates: every item of raw (outer items, and items inside byte strings that contain CBOR)
+// replaced by an item of another type, one at a time, with the CRCs re-computed so that the mutant is judged
+// by the code behind the CRC check.
+func TypeMutants(raw []byte) [][]byte {
+	var out [][]byte
+	outer, inner := CountNodes(raw)
+	for k := 1; k < outer; k++ {
+		for v := range retypeItems {
+			if m, _, ok := applyMutations(raw, []Mutation{{Op: "retype", Node: k, A: uint64(v)}}, true); ok {
+				out = append(out, m)
+			}
+		}
+	}
+	for bi, n := range inner {
+		for k := 0; k < n; k++ {
+			for v := range retypeItems {
+				if m, _, ok := applyMutations(raw, []Mutation{{Op: "inner-retype", Node: bi, A: uint64(v), B: k}}, true); ok {
+					out = append(out, m)
+				}
+			}
+		}
+	}
+	return out
+}
 
 // LengthMutants enumerates: every head of raw (outer items, and items inside byte strings
 // that contain CBOR) with its argument set to each boundary value, one at a time; CRCs are
